@@ -143,4 +143,11 @@ PROPS = {
                   'kani': [{'files': KC + ['f255_util.rs', 'idpf_util.rs', 'c07_codec.rs', 'c07_poplar1.rs', 'c04_poplar1.rs'], 'harnesses': ['pop_finish_sketch_formula', 'pop_next_message_guards', 'pop_agg_param_encoded_len'], 'timeout': 600}]},
         'thorough': {'kani': [{'files': KC + ['f255_util.rs', 'c04_poplar1.rs'], 'harnesses': ['pop_corr_shares_formula'], 'timeout': 2400}]},
     },
+    'C10': {
+        'level': 'other',
+        'explanation': 'Decided (Verus, abstract field = any field meeting the C09 operator contracts, extracted text, all sizes): poly_eval_monomial returns the value of the polynomial at the point (Horner recursion, proved equal to sum a_i x^i) for every length incl. the empty polynomial; ntt_inv_finish is exactly the index reversal i -> (size-i) mod size with scaling by size_inv and leaves elements beyond `size` untouched; the interleave loop of double_evaluations (fragment) writes evaluations[k] to 2k and the shifted-transform half to 2k+1 without destroying a value still to be read; fp::log2 is the ceiling logarithm; bitrev yields a d-bit index. NOT decided: that the butterfly network of ntt_internal computes the DFT (forward transform == evaluation at powers of the root), barycentric evaluation, extension to a power of two, poly_mul_lagrange, error reporting of ntt_internal. A change inside a butterfly or in poly_eval_lagrange_batched is NOT detected by this check.',
+        'trusted': ['abstract field Fe: operator contracts of the field layer (C09)', 'u128::leading_zeros, usize::reverse_bits std semantics (assume_specification)', '64-bit usize', 'E3c: slice parameters are verified as Vec parameters (same index/len operations)'],
+        'quick': {'verus': [('poly_kernels', 'unit')], 'kani': []},
+        'thorough': {},
+    },
 }
